@@ -110,6 +110,10 @@ pub fn install_panic_hook() {
             for line in bt.lines() {
                 let l = line.trim();
                 if let Some(rest) = l.strip_prefix("at ") {
+                    // (The hook's own frame is the innermost of all.)
+                    if rest.contains("src/core/runner.rs") {
+                        continue;
+                    }
                     if rest.starts_with("/repo/src/") {
                         lib_frame = Some(rest.rsplitn(2, ':').nth(1).unwrap_or(rest).to_string());
                         break;
